@@ -118,6 +118,7 @@ def run_mutant(m, tier='quick', runs=None, timeout=900):
         env.pop('KNEESIM_PINNED', None)
         env['KNEESIM_SRC'] = os.path.join(d, 'src')
         env['KNEESIM_OUT'] = os.path.join(d, 'out')
+        env['KNEESIM_FAIL_FAST'] = '1'
         cmd = [sys.executable, os.path.join(core.VERIF_DIR, 'checks', 'run.py'), m['property'], '--tier', tier]
         if m['id'] not in globals().get('NEEDS_SELFTEST', set()):
             cmd.append('--no-selftest')
